@@ -1,13 +1,23 @@
 /-
 C13 — SyncTestSession flags exactly the games that are not deterministic.
 
-Proved: the builder rejects exactly the documented configurations (`C16_synctest_rejects`), and
-the comparison step: the first checksum seen for a frame is recorded, every later save of that
-frame inside the check window is compared against it. Whole-run statements (no false alarm for a
-deterministic game, detection within check_distance + 2 calls) are decided on traces
-(monitor C13, families sync / syncglitch).
+Proved:
+* `C13_no_false_alarm` — for every deterministic game (any state type, any `step`, any checksum
+  function), every player count, window, check distance, input delay, and every run of the world
+  "the user adds inputs / calls advance_frame / the game executes the returned requests, its
+  saves reaching the cells", `advance_frame` never returns `MismatchedChecksum`: its only error is
+  `InvalidRequest` (an input missing). The invariant behind it (`STInv`) says that the game's
+  state, every stored state and every stored and remembered checksum is the serial replay of the
+  real inputs — the same timeline contract as a P2P session with all inputs Confirmed and delayed
+  as configured (`rowOf`: every re-simulated row is the full row of real, Confirmed inputs).
+* the builder rejects exactly the documented configurations (`C16_synctest_rejects`);
+* the comparison step: the first checksum seen for a frame is recorded, every later save of that
+  frame inside the check window is compared against it (`C13_compare`).
+Decided on traces (monitor C13, families sync / syncglitch): detection of a non-deterministic
+step within check_distance + 2 calls, naming the first affected frame.
 -/
 import GgrsModel.Properties.C16
+import GgrsModel.Proofs.SyncTestProof
 
 namespace Ggrs.SyncTest
 
@@ -30,3 +40,48 @@ theorem C13_compare (s : SyncTest) (f : Frame) (cell : Cell) (first : Option Nat
   simp only [hfilter, hcell, bind, Except.bind, hrec, pure, Except.pure]
 
 end Ggrs.SyncTest
+
+namespace Ggrs
+
+/-- **C13, first half, every run.** A sync test session built with any configuration, next to any
+deterministic game: whatever the user does (adding inputs, calling `advance_frame` with or without
+all inputs, executing the returned requests), a call of `advance_frame` that returns at all returns
+either its requests or `InvalidRequest` — never `MismatchedChecksum`. -/
+theorem C13_no_false_alarm {G : Type} (step : G → List (Input × InputStatus) → G) (g0 : G) (csf : G → Option Nat)
+    (N mp cd delay : Nat) (pr : Predictor) (s0 : SyncTest) (R : Nat → List (Input × InputStatus))
+    (cellG : Nat → G) (tag : Nat → Int)
+    (hnew : SyncTest.new N mp cd delay pr = .ok s0)
+    (w : SyncTest × GS G) (hrun : STStar step csf (s0, ⟨0, R, g0, cellG, tag⟩) w)
+    (s' : SyncTest) (r : Except GgrsError (List Request)) (ha : w.1.advanceFrame = .ok (s', r)) :
+    (∃ reqs, r = .ok reqs) ∨ r = .error .invalidRequest := by
+  have hcd0 : s0.checkDistance = cd := by
+    unfold SyncTest.new at hnew
+    obtain ⟨sy, _, hnew⟩ := bind_ok hnew
+    rw [← pure_ok hnew]
+  by_cases hcd : 0 < cd
+  · have hinit := STInv_new step g0 csf N mp cd delay pr s0 R cellG tag hcd hnew
+    have hinv := STInv_run step g0 csf _ w hinit hrun
+    rcases STInv_tick step g0 csf w.1 s' w.2 r hinv ha with ⟨he, _⟩ | ⟨reqs, hr, _⟩
+    · exact Or.inr he
+    · exact Or.inl ⟨reqs, hr⟩
+  · have h0 : w.1.checkDistance = 0 := cd0_run step csf _ w (by show s0.checkDistance = 0; rw [hcd0]; omega) hrun
+    obtain ⟨_, herr⟩ := advanceFrame_cd0 w.1 s' r h0 ha
+    cases r with
+    | ok reqs => exact Or.inl ⟨reqs, rfl⟩
+    | error e => rw [herr e rfl]; exact Or.inr rfl
+
+/-- Non-vacuity: a two-player session with check distance 2 exists; with both inputs in, its calls
+return requests (2 while warming up, then load, two re-simulated frames with one save, save, advance). -/
+def c13Demo : Nat → SyncTest → Option (List Nat)
+  | 0, _ => some []
+  | n + 1, s =>
+    match (((s.addLocalInput 0 3).1.addLocalInput 1 4).1).advanceFrame with
+    | .ok (s', .ok reqs) => (c13Demo n (s'.userExecute (reqs.filterMap fun r => match r with
+        | .save f => some (f, some f.toNat) | _ => none))).map (reqs.length :: ·)
+    | _ => none
+
+example : (match SyncTest.new 2 8 2 0 .repeatLast with
+    | .ok s0 => c13Demo 5 s0
+    | _ => none) = some [2, 2, 2, 6, 6] := by decide +kernel
+
+end Ggrs
